@@ -1992,4 +1992,500 @@ Section InterRT.
         * cbn [rev]. rewrite <- app_assoc. reflexivity.
         * cbn [length] in Hf. rewrite !app_length in Hf. lia.
   Qed.
+  (* ---- the coefficient text: sign, then digits (or nothing for a unit coefficient) ---- *)
+  Definition coef_val (sg b : str) (v : R) : Prop :=
+    match b with
+    | [] => v = match sg with [] => 1 | _ => -1 end
+    | _ => @parse_dec R RNum (sg ++ b) = Some v
+    end.
+
+  Lemma inter_coeff_spec sg b v : (sg = [] \/ sg = [c_minus]) -> body_ok b = true -> coef_val sg b v ->
+    @inter_coeff R RNum (sg ++ b) = Ok v.
+  Proof.
+    intros Hs Hb Hv. destruct b as [|x b].
+    - cbn [coef_val] in Hv. rewrite app_nil_r. destruct Hs as [->| ->]; subst v.
+      + reflexivity.
+      + unfold inter_coeff. cbn [str_eqb N.eqb c_minus Pos.eqb andb nneg n1 RNum]. f_equal; try lra.
+    - cbn [coef_val] in Hv.
+      assert (Hx : x <> c_minus).
+      { cbn [body_ok forallb] in Hb. apply andb_true_iff in Hb. destruct Hb as [Hx _].
+        exact (proj1 (numch_facts2 x Hx)). }
+      unfold inter_coeff.
+      assert (E : str_eqb (sg ++ x :: b) [c_minus] = false).
+      { destruct Hs as [->| ->]; cbn [app str_eqb].
+        - destruct (N.eqb_spec x c_minus); [contradiction|reflexivity].
+        - rewrite N.eqb_refl. reflexivity. }
+      rewrite E, (no_slash sg (x :: b) Hs Hb), Hv.
+      destruct Hs as [->| ->]; reflexivity.
+  Qed.
+
+  Lemma inter_term_spec sg b v vs : (sg = [] \/ sg = [c_minus]) -> body_ok b = true -> coef_val sg b v ->
+    vars_ok vs ->
+    @inter_term R RNum U (sg ++ b ++ fvars vs)
+    = Ok {| t_coef := v; t_vars := merge_vars (sort_vars (read_vars vs)) [] |}.
+  Proof.
+    intros Hs Hb Hv Hvs. unfold inter_term.
+    rewrite (scan_coeff_signed sg b (fvars vs) Hs Hb (fvars_stops vs Hvs)).
+    rewrite (inter_coeff_spec sg b v Hs Hb Hv).
+    rewrite (scan_vars_spec vs (length (fvars vs)) [] Hvs (le_n _)). reflexivity.
+  Qed.
+
+  (* ---- sorted, distinct names are left alone by sort_vars / merge_vars ---- *)
+  Fixpoint strict_sorted (l : list (name * R)) : Prop :=
+    match l with
+    | [] => True
+    | x :: r => (forall y, In y r -> name_leb (fst x) (fst y) = true /\ name_eqb (fst x) (fst y) = false)
+                /\ strict_sorted r
+    end.
+
+  Lemma insert_var_last (x : name * R) l :
+    (forall y, In y l -> name_leb (fst y) (fst x) = true) -> insert_var x l = l ++ [x].
+  Proof.
+    induction l as [|y l IH]; intro H; [reflexivity|].
+    cbn [insert_var]. rewrite (H y (or_introl eq_refl)). cbn [app]. f_equal.
+    apply IH. intros z Hz. apply H. right. exact Hz.
+  Qed.
+
+  Lemma sort_vars_acc (l : list (name * R)) : forall acc,
+    (forall y x, In y acc -> In x l -> name_leb (fst y) (fst x) = true) -> strict_sorted l ->
+    fold_left (fun acc x => insert_var x acc) l acc = acc ++ l.
+  Proof.
+    induction l as [|x l IH]; intros acc Ha Hs; [cbn; rewrite app_nil_r; reflexivity|].
+    cbn [fold_left]. destruct Hs as [Hx Hs].
+    rewrite insert_var_last by (intros y Hy; apply (Ha y x Hy); left; reflexivity).
+    rewrite IH; [rewrite <- app_assoc; reflexivity| |exact Hs].
+    intros y z Hy Hz. apply in_app_or in Hy. destruct Hy as [Hy|[<-|[]]].
+    - apply (Ha y z Hy). right. exact Hz.
+    - apply Hx. exact Hz.
+  Qed.
+
+  Lemma sort_vars_sorted (l : list (name * R)) : strict_sorted l -> sort_vars l = l.
+  Proof. intro H. unfold sort_vars. rewrite sort_vars_acc; [reflexivity|intros y x []|exact H]. Qed.
+
+  Lemma merge_vars_distinct (l : list (name * R)) : forall acc,
+    match acc, l with
+    | w :: _, v :: _ => name_eqb (fst w) (fst v) = false
+    | _, _ => True
+    end -> strict_sorted l -> @merge_vars R RNum l acc = rev acc ++ l.
+  Proof.
+    induction l as [|[v p] l IH]; intros acc Ha Hs; [cbn; rewrite app_nil_r; reflexivity|].
+    destruct Hs as [Hx Hs]. cbn [merge_vars].
+    assert (Next : match l with
+                   | v2 :: _ => name_eqb (fst (v, p)) (fst v2) = false
+                   | [] => True end).
+    { destruct l as [|v2 l2]; [exact I|]. apply Hx. left. reflexivity. }
+    destruct acc as [|[w q] acc].
+    - rewrite IH; [reflexivity|exact Next|exact Hs].
+    - cbn [fst] in Ha. rewrite Ha. rewrite IH; [|exact Next|exact Hs].
+      cbn [rev]. rewrite <- !app_assoc. reflexivity.
+  Qed.
+
+  Lemma strict_sorted_read vs : strict_sorted vs -> strict_sorted (read_vars vs).
+  Proof.
+    induction vs as [|x vs IH]; intro H; [exact I|].
+    destruct H as [Hx Hs]. split; [|exact (IH Hs)].
+    intros y Hy. unfold read_vars in Hy. apply in_map_iff in Hy. destruct Hy as [z [<- Hz]].
+    cbn [fst]. apply Hx. exact Hz.
+  Qed.
+
+  Lemma canon_vars vs : strict_sorted vs ->
+    @merge_vars R RNum (sort_vars (read_vars vs)) [] = read_vars vs.
+  Proof.
+    intro H. pose proof (strict_sorted_read vs H) as H'.
+    rewrite (sort_vars_sorted _ H'). rewrite merge_vars_distinct; [reflexivity| |exact H'].
+    destruct (read_vars vs); exact I.
+  Qed.
+
+  (* ---- one printed term ---- *)
+  Definition csI (t : term R) : str :=
+    if nneb (nabs (t_coef t)) n1 || negb (has_vars t) then fnum (nabs (t_coef t)) else [].
+  Definition ttext (t : term R) : str := csI t ++ fvars (t_vars t).
+  Definition nmI (t : term R) : str := sgn_str (t_coef t) ++ ttext t.
+  Definition term_ok (t : term R) : Prop :=
+    mag_ok (Rabs (t_coef t)) /\ vars_ok (t_vars t) /\ strict_sorted (t_vars t).
+  Definition readcI (t : term R) : R :=
+    if nneb (nabs (t_coef t)) n1 || negb (has_vars t)
+    then (if Rltb (t_coef t) 0 then - rd (Rabs (t_coef t)) else rd (Rabs (t_coef t)))
+    else t_coef t.
+  Definition readterm (t : term R) : term R :=
+    {| t_coef := readcI t; t_vars := read_vars (t_vars t) |}.
+
+  Lemma csI_body_ok t : term_ok t -> body_ok (csI t) = true.
+  Proof.
+    intros [[H _] _]. unfold csI. destruct (nneb (nabs (t_coef t)) n1 || negb (has_vars t)); [exact H|reflexivity].
+  Qed.
+
+  Lemma sgn_ok c : sgn_str c = [] \/ sgn_str c = [c_minus].
+  Proof. unfold sgn_str. destruct (Rltb c 0); [right|left]; reflexivity. Qed.
+
+  Lemma csI_coef_val t : term_ok t -> coef_val (sgn_str (t_coef t)) (csI t) (readcI t).
+  Proof.
+    intros [[Hb Hp] _]. unfold csI, readcI. cbn [nabs n1 RNum].
+    destruct (nneb (Rabs (t_coef t)) 1 || negb (has_vars t)) eqn:E.
+    - unfold coef_val. destruct (fnum (Rabs (t_coef t))) as [|x b] eqn:Ef; [discriminate Hp|].
+      unfold sgn_str. destruct (Rltb (t_coef t) 0); cbn [app].
+      + apply parse_dec_neg; assumption.
+      + exact Hp.
+    - cbn [coef_val]. apply orb_false_iff in E. destruct E as [E _].
+      unfold nneb in E. apply negb_false_iff in E. cbn [neqb RNum] in E. apply Reqb_true in E.
+      unfold sgn_str. destruct (Rltb (t_coef t) 0) eqn:En.
+      + apply Rltb_true in En. rewrite Rabs_left in E by exact En. lra.
+      + apply Rltb_false in En. rewrite Rabs_right in E by lra. exact E.
+  Qed.
+
+  Lemma nmI_reads t : term_ok t -> @inter_term R RNum U (nmI t) = Ok (readterm t).
+  Proof.
+    intro H. pose proof H as [_ [Hv Hs]]. unfold nmI, ttext.
+    rewrite (inter_term_spec _ _ (readcI t) _ (sgn_ok _) (csI_body_ok t H) (csI_coef_val t H) Hv).
+    rewrite (canon_vars _ Hs). reflexivity.
+  Qed.
+
+  (* the text of a term starts with a digit, a dot or a letter, never with '-' *)
+  Lemma ttext_head t : term_ok t -> exists x r, ttext t = x :: r /\ x <> c_minus.
+  Proof.
+    intro H. pose proof H as [[Hb Hp] [Hv _]]. unfold ttext, csI. cbn [nabs RNum].
+    destruct (nneb (Rabs (t_coef t)) n1 || negb (has_vars t)) eqn:E.
+    - destruct (fnum (Rabs (t_coef t))) as [|x b] eqn:Ef; [discriminate Hp|].
+      exists x, (b ++ fvars (t_vars t)). split; [reflexivity|].
+      cbn [body_ok forallb] in Hb. apply andb_true_iff in Hb. exact (proj1 (numch_facts2 x (proj1 Hb))).
+    - apply orb_false_iff in E. destruct E as [_ E]. apply negb_false_iff in E.
+      unfold has_vars in E. destruct (t_vars t) as [|[v e] vs] eqn:Et; [discriminate E|].
+      destruct (Hv v e (or_introl eq_refl)) as [[ch [-> Hl]] _].
+      cbn [app fmt_vars]. eexists ch, _. split; [reflexivity|].
+      exact (proj1 (proj2 (proj2 (letter_facts2 ch Hl)))).
+  Qed.
+
+  Lemma ttext_tch t : term_ok t -> forallb tch (ttext t) = true.
+  Proof.
+    intro H. unfold ttext. rewrite forallb_app, (fvars_tch _ (proj1 (proj2 H))), andb_true_r.
+    pose proof (csI_body_ok t H) as Hb. unfold body_ok in Hb. rewrite forallb_forall in *.
+    intros c Hc. unfold tch. rewrite (Hb c Hc). reflexivity.
+  Qed.
+
+  Lemma nmI_tch t : term_ok t -> forallb tch (nmI t) = true.
+  Proof.
+    intro H. unfold nmI. rewrite forallb_app, (ttext_tch t H), andb_true_r.
+    destruct (sgn_ok (t_coef t)) as [-> | ->]; reflexivity.
+  Qed.
+
+  Lemma tch_no_plus s : forallb tch s = true -> ~ In c_plus s.
+  Proof.
+    intros H Hin. rewrite forallb_forall in H. destruct (tch_facts _ (H _ Hin)) as [_ [X _]]. apply X. reflexivity.
+  Qed.
+
+  Lemma strip_ws_tch s : forallb tch s = true -> strip_ws s = s.
+  Proof.
+    induction s as [|c s IH]; intro H; [reflexivity|].
+    cbn [forallb] in H. apply andb_true_iff in H. destruct H as [H1 H2].
+    cbn [strip_ws filter]. rewrite (proj1 (tch_facts c H1)). cbn [negb]. f_equal. apply IH. exact H2.
+  Qed.
+
+  Lemma nmI_not_bad t : term_ok t -> bad_part (nmI t) = false.
+  Proof.
+    intro H. destruct (ttext_head t H) as [x [r [E Hx]]]. unfold nmI. rewrite E.
+    destruct (sgn_ok (t_coef t)) as [-> | ->]; cbn [app bad_part]; [|reflexivity].
+    destruct r; [|reflexivity]. apply N.eqb_neq. exact Hx.
+  Qed.
+
+  Lemma pm_ttext t s : term_ok t -> protect_minus false (ttext t ++ s) = ttext t ++ protect_minus false s.
+  Proof.
+    intro H. unfold ttext. rewrite <- !app_assoc, (pm_body _ _ _ (csI_body_ok t H)).
+    rewrite (pm_fvars _ _ _ (proj1 (proj2 H))). do 2 f_equal.
+    destruct (csI t); destruct (t_vars t); reflexivity.
+  Qed.
+  (* ---- the whole polynomial ---- *)
+  Notation iloop := (inter_loop fmt_prec fmt_short prec).
+  Definition all_terms_ok (ts : list (term R)) : Prop := forall t, In t ts -> term_ok t.
+
+  Lemma all_terms_ok_tail t ts : all_terms_ok (t :: ts) -> all_terms_ok ts.
+  Proof. intros H x Hx. apply H. right. exact Hx. Qed.
+
+  Fixpoint normI (ts : list (term R)) (first : bool) : str :=
+    match ts with
+    | [] => []
+    | t :: r => (if first && negb (Rltb (t_coef t) 0) then [] else [c_plus]) ++ nmI t ++ normI r false
+    end.
+
+  Lemma Rleb0 c : Rleb 0 c = negb (Rltb c 0).
+  Proof.
+    destruct (Rltb c 0) eqn:E; cbn [negb].
+    - apply Rleb_false. apply Rltb_true in E. exact E.
+    - apply Rleb_true. apply Rltb_false in E. exact E.
+  Qed.
+
+  Lemma iloop_cons first t ts :
+    iloop first (t :: ts) =
+    (if first then (if Rltb (t_coef t) 0 then [c_minus] else [])
+     else (if negb (Rltb (t_coef t) 0) then sep_plus else sep_minus))
+    ++ ttext t ++ iloop false ts.
+  Proof.
+    cbn [inter_loop]. cbn [nltb ngeb nleb n0 RNum]. rewrite Rleb0. unfold ttext, csI.
+    rewrite <- !app_assoc. reflexivity.
+  Qed.
+
+  Lemma inter_norm ts : forall first, all_terms_ok ts ->
+    protect_minus false (strip_ws (iloop first ts)) = normI ts first.
+  Proof.
+    induction ts as [|t ts IH]; intros first Hok; [reflexivity|].
+    assert (Ht : term_ok t) by (apply Hok; left; reflexivity).
+    rewrite iloop_cons. cbn [normI]. rewrite !strip_ws_app, (strip_ws_tch _ (ttext_tch t Ht)).
+    unfold nmI, sgn_str.
+    destruct first; destruct (Rltb (t_coef t) 0); cbn [negb andb].
+    - change (strip_ws [c_minus]) with [c_minus]. cbn [app protect_minus]. rewrite N.eqb_refl. cbn [app].
+      rewrite (pm_ttext t _ Ht), (IH false (all_terms_ok_tail _ _ Hok)). reflexivity.
+    - change (strip_ws []) with (@nil N). cbn [app].
+      rewrite (pm_ttext t _ Ht), (IH false (all_terms_ok_tail _ _ Hok)). reflexivity.
+    - change (strip_ws sep_minus) with [c_minus]. cbn [app protect_minus]. rewrite N.eqb_refl. cbn [app].
+      rewrite (pm_ttext t _ Ht), (IH false (all_terms_ok_tail _ _ Hok)). reflexivity.
+    - change (strip_ws sep_plus) with [c_plus]. cbn [app protect_minus].
+      replace (N.eqb c_plus c_minus) with false by reflexivity.
+      replace (N.eqb c_plus c_caret) with false by reflexivity.
+      rewrite (pm_ttext t _ Ht), (IH false (all_terms_ok_tail _ _ Hok)). reflexivity.
+  Qed.
+
+  Lemma split_concat (l : list str) : forall a, ~ In c_plus a -> (forall q, In q l -> ~ In c_plus q) ->
+    split_on c_plus (a ++ concat (map (fun q => c_plus :: q) l)) = a :: l.
+  Proof.
+    induction l as [|q l IH]; intros a Ha Hl.
+    - cbn. rewrite app_nil_r. apply split_on_nosep. exact Ha.
+    - cbn [map concat app]. rewrite split_on_sep by exact Ha. f_equal.
+      apply IH; [apply Hl; left; reflexivity|intros r Hr; apply Hl; right; exact Hr].
+  Qed.
+
+  Lemma normI_false ts : normI ts false = concat (map (fun q => c_plus :: q) (map nmI ts)).
+  Proof. induction ts as [|t ts IH]; [reflexivity|]. cbn [normI map concat andb app]. rewrite IH. reflexivity. Qed.
+
+  Lemma nmI_no_plus ts : all_terms_ok ts -> forall q, In q (map nmI ts) -> ~ In c_plus q.
+  Proof.
+    intros Hok q Hq. apply in_map_iff in Hq. destruct Hq as [t [<- Ht]].
+    apply tch_no_plus, nmI_tch, Hok, Ht.
+  Qed.
+
+  Lemma partsI ts : all_terms_ok ts ->
+    drop_leading_empty (split_on c_plus (normI ts true)) = map nmI ts.
+  Proof.
+    destruct ts as [|t ts]; intro Hok; [reflexivity|].
+    assert (Ht : term_ok t) by (apply Hok; left; reflexivity).
+    pose proof (nmI_no_plus ts (all_terms_ok_tail _ _ Hok)) as Hl.
+    cbn [normI map]. rewrite normI_false. cbn [andb].
+    destruct (negb (Rltb (t_coef t) 0)).
+    - cbn [app]. rewrite split_concat; [|apply tch_no_plus, nmI_tch; exact Ht|exact Hl].
+      pose proof (nmI_not_bad t Ht) as Hb. destruct (nmI t); [discriminate Hb|reflexivity].
+    - change ([c_plus] ++ nmI t ++ ?x) with ([] ++ c_plus :: (nmI t ++ x)).
+      rewrite split_on_sep by (intros []).
+      rewrite split_concat; [reflexivity|apply tch_no_plus, nmI_tch; exact Ht|exact Hl].
+  Qed.
+
+  Lemma partsI_not_bad ts : all_terms_ok ts -> existsb bad_part (map nmI ts) = false.
+  Proof.
+    induction ts as [|t ts IH]; intro Hok; [reflexivity|].
+    cbn [map existsb]. rewrite nmI_not_bad by (apply Hok; left; reflexivity).
+    apply IH. exact (all_terms_ok_tail _ _ Hok).
+  Qed.
+
+  Lemma mapM_map_ok {A B C} (f : B -> res C) (h : A -> B) (g : A -> C) (l : list A) :
+    (forall x, In x l -> f (h x) = Ok (g x)) -> mapM f (map h l) = Ok (map g l).
+  Proof.
+    induction l as [|x l IH]; intro H; [reflexivity|].
+    cbn [map mapM]. rewrite (H x (or_introl eq_refl)). cbn [bind].
+    rewrite IH by (intros y Hy; apply H; right; exact Hy). reflexivity.
+  Qed.
+
+  (* no '@' in the printed text *)
+  Definition och (c : N) : bool := tch c || N.eqb c c_space || N.eqb c c_plus.
+  Lemma och_not_at s : forallb och s = true -> contains_char c_at s = false.
+  Proof.
+    intro H. unfold contains_char. apply not_true_is_false. intro X.
+    apply existsb_exists in X. destruct X as [x [Hx E]]. apply N.eqb_eq in E. subst x.
+    rewrite forallb_forall in H. specialize (H _ Hx). unfold och in H.
+    rewrite !orb_true_iff in H. destruct H as [[H|H]|H]; discriminate H.
+  Qed.
+  Lemma tch_och s : forallb tch s = true -> forallb och s = true.
+  Proof. rewrite !forallb_forall. intros H c Hc. unfold och. rewrite (H c Hc). reflexivity. Qed.
+
+  Lemma iloop_och ts : forall first, all_terms_ok ts -> forallb och (iloop first ts) = true.
+  Proof.
+    induction ts as [|t ts IH]; intros first Hok; [reflexivity|].
+    rewrite iloop_cons, !forallb_app, (tch_och _ (ttext_tch t (Hok t (or_introl eq_refl)))),
+      (IH false (all_terms_ok_tail _ _ Hok)), !andb_true_r.
+    destruct first; destruct (Rltb (t_coef t) 0); reflexivity.
+  Qed.
+
+  Lemma parse_inter_loop ts : all_terms_ok ts ->
+    parse_inter U (iloop true ts)
+    = Ok {| i_terms := map readterm ts; i_vars := var_set (map readterm ts) |}.
+  Proof.
+    intro Hok. unfold parse_inter.
+    rewrite (och_not_at _ (iloop_och ts true Hok)), (inter_norm ts true Hok), (partsI ts Hok),
+      (partsI_not_bad ts Hok).
+    rewrite (mapM_map_ok (@inter_term R RNum U) nmI readterm ts)
+      by (intros t Ht; apply nmI_reads, Hok, Ht).
+    reflexivity.
+  Qed.
+
+  (* a single Term (its own Display): coefficient text with its sign, no precision *)
+  Lemma parse_inter_term_text sg b v vs : (sg = [] \/ sg = [c_minus]) -> body_ok b = true ->
+    coef_val sg b v -> vars_ok vs -> strict_sorted vs -> (b <> [] \/ vs <> []) ->
+    parse_inter U (sg ++ b ++ fvars vs)
+    = Ok {| i_terms := [ {| t_coef := v; t_vars := read_vars vs |} ];
+            i_vars := var_set [ {| t_coef := v; t_vars := read_vars vs |} ] |}.
+  Proof.
+    intros Hs Hb Hv Hvs Hsort Hne.
+    assert (Tb : forallb tch (b ++ fvars vs) = true).
+    { rewrite forallb_app, (fvars_tch vs Hvs), andb_true_r.
+      unfold body_ok in Hb. rewrite forallb_forall in *. intros c Hc. unfold tch. rewrite (Hb c Hc). reflexivity. }
+    assert (Tall : forallb tch (sg ++ b ++ fvars vs) = true).
+    { rewrite forallb_app, Tb, andb_true_r. destruct Hs as [->| ->]; reflexivity. }
+    assert (Hd : exists x r, b ++ fvars vs = x :: r /\ x <> c_minus).
+    { destruct b as [|x b].
+      - destruct Hne as [X|X]; [contradiction|]. destruct vs as [|[v0 e0] vs]; [contradiction|].
+        destruct (Hvs v0 e0 (or_introl eq_refl)) as [[ch [-> Hl]] _].
+        cbn [app fmt_vars]. eexists ch, _. split; [reflexivity|].
+        exact (proj1 (proj2 (proj2 (letter_facts2 ch Hl)))).
+      - exists x, (b ++ fvars vs). split; [reflexivity|].
+        cbn [body_ok forallb] in Hb. apply andb_true_iff in Hb. exact (proj1 (numch_facts2 x (proj1 Hb))). }
+    assert (PMb : protect_minus false (b ++ fvars vs) = b ++ fvars vs).
+    { rewrite <- (app_nil_r (fvars vs)), (pm_body _ _ _ Hb), (pm_fvars vs _ [] Hvs).
+      cbn [protect_minus]. reflexivity. }
+    unfold parse_inter.
+    rewrite (och_not_at _ (tch_och _ Tall)), (strip_ws_tch _ Tall).
+    assert (Parts : drop_leading_empty (split_on c_plus (protect_minus false (sg ++ b ++ fvars vs)))
+                    = [sg ++ b ++ fvars vs]).
+    { destruct Hd as [x [r [E Hx]]].
+      destruct Hs as [->| ->]; cbn [app].
+      - rewrite PMb, split_on_nosep by (apply tch_no_plus; exact Tb).
+        rewrite E. reflexivity.
+      - cbn [protect_minus]. rewrite N.eqb_refl. cbn [app].
+        rewrite PMb. change (c_plus :: c_minus :: b ++ fvars vs) with ([] ++ c_plus :: (c_minus :: b ++ fvars vs)).
+        rewrite split_on_sep by (intros []).
+        rewrite split_on_nosep; [reflexivity|].
+        apply tch_no_plus. exact Tall. }
+    rewrite Parts.
+    assert (NB : existsb bad_part [sg ++ b ++ fvars vs] = false).
+    { cbn [existsb]. rewrite orb_false_r. destruct Hd as [x [r [E Hx]]]. rewrite E.
+      destruct Hs as [->| ->]; cbn [app bad_part]; [|reflexivity].
+      destruct r; [|reflexivity]. apply N.eqb_neq. exact Hx. }
+    rewrite NB. cbn [mapM]. rewrite (inter_term_spec sg b v vs Hs Hb Hv Hvs), (canon_vars vs Hsort).
+    reflexivity.
+  Qed.
 End InterRT.
+
+(* ========================================================================== *)
+(** * C17: statements for Term and IntermediatePolynomial (default formatting) *)
+
+Section C17Inter.
+  Variable U : UClass.
+  Hypothesis U_num : forall c, (c < 128)%N -> u_numeric U c = is_ascii_digit c.
+  Variable F : R -> Prop.
+  Hypothesis F_opp : forall x, F x -> F (- x).
+  Variable fmt_prec : nat -> R -> str.
+  Variable fmt_short : R -> str.
+  Hypothesis H1 : forall x, F x -> short_shape x (fmt_short x).
+  Hypothesis H2 : forall x, F x -> @parse_dec R RNum (fmt_short x) = Some x.
+
+  (* well-formed term: finite numbers, variables = sorted distinct single ASCII letters *)
+  Definition wf_term (t : term R) : Prop :=
+    F (t_coef t)
+    /\ (forall v e, In (v, e) (t_vars t) -> letter_name v /\ F e)
+    /\ strict_sorted (t_vars t).
+
+  Let idR := fun x : R => x.
+
+  Lemma short_pos x : F x -> 0 <= x -> body_ok (fmt_short x) = true.
+  Proof.
+    intros Fx Hx. pose proof (H1 x Fx) as S. unfold short_shape in S.
+    replace (Rltb x 0) with false in S; [exact S|]. symmetry. apply Rltb_false. exact Hx.
+  Qed.
+
+  Lemma short_split x : F x ->
+    exists sg b, fmt_short x = sg ++ b /\ (sg = [] \/ sg = [c_minus]) /\ body_ok b = true /\ b <> [].
+  Proof.
+    intro Fx. pose proof (H1 x Fx) as S. pose proof (H2 x Fx) as P. unfold short_shape in S.
+    destruct (Rltb x 0).
+    - destruct S as [b [E Hb]]. exists [c_minus], b. repeat split; [exact E|right; reflexivity|exact Hb|].
+      intro X. subst b. rewrite E in P. discriminate P.
+    - exists [], (fmt_short x). repeat split; [left; reflexivity|exact S|].
+      intro X. rewrite X in P. discriminate P.
+  Qed.
+
+  Lemma default_exp_ok e : F e -> exp_ok fmt_prec fmt_short None idR e.
+  Proof.
+    intro Fe. destruct (short_split e Fe) as [sg [b [E [Hs [Hb _]]]]].
+    exists sg, b. cbn [fmt_exp]. rewrite E. repeat split; try assumption.
+    rewrite <- E. apply H2. exact Fe.
+  Qed.
+
+  Lemma default_term_ok t : wf_term t -> term_ok fmt_prec fmt_short None idR idR t.
+  Proof.
+    intros [Fc [Hv Hs]]. split; [|split; [|exact Hs]].
+    - pose proof (F_abs F F_opp _ Fc) as Fa. split; [apply short_pos; [exact Fa|apply Rabs_pos]|apply H2; exact Fa].
+    - intros v e Hin. destruct (Hv v e Hin) as [Hl Fe]. split; [exact Hl|]. intros _. apply default_exp_ok. exact Fe.
+  Qed.
+
+  Lemma read_vars_id vs : read_vars idR vs = vs.
+  Proof.
+    unfold read_vars. rewrite <- (map_id vs) at 2. apply map_ext. intros [v e]. cbn [fst snd]. f_equal.
+    unfold rdx, idR. destruct (Reqb e 1) eqn:E; [apply Reqb_true in E; congruence|reflexivity].
+  Qed.
+
+  Lemma readterm_id t : readterm idR idR t = t.
+  Proof.
+    destruct t as [c vs]. unfold readterm. cbn [t_coef t_vars]. rewrite read_vars_id. f_equal.
+    unfold readcI, idR. cbn [t_coef].
+    destruct (nneb (nabs c) n1 || negb (has_vars {| t_coef := c; t_vars := vs |})); [|reflexivity].
+    destruct (Rltb c 0) eqn:En.
+    - apply Rltb_true in En. rewrite Rabs_left by exact En. ring.
+    - apply Rltb_false in En. apply Rabs_right. lra.
+  Qed.
+
+  Lemma c17_inter_default : forall p : ipoly R,
+    i_terms p <> [] ->
+    (forall t, In t (i_terms p) -> wf_term t) ->
+    parse_inter U (fmt_inter fmt_prec fmt_short None p)
+    = Ok {| i_terms := i_terms p; i_vars := var_set (i_terms p) |}.
+  Proof.
+    intros p Hne Hwf. unfold fmt_inter. destruct (i_terms p) as [|t ts] eqn:Et; [contradiction|].
+    rewrite (parse_inter_loop U U_num fmt_prec fmt_short None idR idR (t :: ts)).
+    - rewrite (map_ext _ (fun x => x) readterm_id), map_id. reflexivity.
+    - intros x Hx. apply default_term_ok, Hwf, Hx.
+  Qed.
+
+  (* the zero polynomial prints "0", which reads back as the single constant term 0 *)
+  Lemma c17_inter_zero : forall p : ipoly R, i_terms p = [] ->
+    exists c0, parse_inter U (fmt_inter fmt_prec fmt_short None p)
+               = Ok {| i_terms := [ {| t_coef := c0; t_vars := [] |} ]; i_vars := [] |} /\ c0 = 0.
+  Proof.
+    intros p E. unfold fmt_inter. rewrite E.
+    exists (@nofdec R RNum 0 0). split; [|rewrite nofdec_R; ring].
+    exact (parse_inter_term_text U U_num fmt_prec fmt_short None idR [] [c_zero] (@nofdec R RNum 0 0) []
+             (or_introl eq_refl) eq_refl eq_refl (fun v e H => match H with end) I
+             (or_introl ltac:(discriminate))).
+  Qed.
+
+  Lemma c17_term : forall t : term R, wf_term t ->
+    parse_inter U (fmt_term fmt_prec fmt_short t)
+    = Ok {| i_terms := [t]; i_vars := var_set [t] |}.
+  Proof.
+    intros [c vs] [Fc [Hv Hs]]. cbn [t_coef t_vars] in *.
+    assert (Hvs : vars_ok fmt_prec fmt_short None idR vs).
+    { intros v e Hin. destruct (Hv v e Hin) as [Hl Fe]. split; [exact Hl|]. intros _. apply default_exp_ok. exact Fe. }
+    unfold fmt_term. cbn [t_coef t_vars].
+    assert (Res : forall sg b, (sg = [] \/ sg = [c_minus]) -> body_ok b = true ->
+               coef_val sg b c -> (b <> [] \/ vs <> []) ->
+               parse_inter U (sg ++ b ++ fmt_vars fmt_prec fmt_short None vs)
+               = Ok {| i_terms := [ {| t_coef := c; t_vars := vs |} ];
+                       i_vars := var_set [ {| t_coef := c; t_vars := vs |} ] |}).
+    { intros sg b Hsg Hb Hval Hne.
+      rewrite (parse_inter_term_text U U_num fmt_prec fmt_short None idR sg b c vs Hsg Hb Hval Hvs Hs Hne).
+      rewrite read_vars_id. reflexivity. }
+    destruct (nneb c n1 || negb (has_vars {| t_coef := c; t_vars := vs |})) eqn:Epr.
+    - destruct (short_split c Fc) as [sg [b [E [Hsg [Hb Hne]]]]].
+      rewrite E, <- app_assoc. apply Res; try assumption; [|left; exact Hne].
+      unfold coef_val. destruct b; [contradiction|]. rewrite <- E. apply H2. exact Fc.
+    - apply orb_false_iff in Epr. destruct Epr as [E1 E2].
+      unfold nneb in E1. apply negb_false_iff in E1. cbn [neqb n1 RNum] in E1. apply Reqb_true in E1.
+      apply negb_false_iff in E2. unfold has_vars in E2. cbn [t_vars] in E2.
+      apply (Res [] []); [left; reflexivity|reflexivity|exact E1|].
+      right. intro X. subst vs. discriminate E2.
+  Qed.
+End C17Inter.
